@@ -31,6 +31,10 @@ def line_words(rng, nwords, kind):
         return l1b.pack_words([(7 * i + 3) % 1024 for i in range(3 * nwords)])
     if kind == "topbits":
         return [(rng.getrandbits(30)) | (rng.choice([1, 2, 3]) << 30) for _ in range(nwords)]
+    if kind == "dropouts":  # telemetry drop-outs: some samples read 0 (or full scale), the others keep a plausible level
+        lvl = rng.randrange(300, 1000)
+        smp = [rng.choice([0, 0, 1023, lvl, lvl + 1, lvl - 3]) for _ in range(3 * nwords)]
+        return l1b.pack_words(smp)
     raise ValueError(kind)
 
 
@@ -56,7 +60,7 @@ def run(res, tier, seed):
         info = l1b.FMT[fmt]
         fam, W, NW = info["family"], info["width"], info["words"]
         start = datetime.datetime(2003 if fam == "klm" else 1991, 5, 6, 7, 8, 9)
-        kinds = ["random", "walk", "ones", "ramp", "topbits"]
+        kinds = ["random", "walk", "ones", "ramp", "topbits", "dropouts"]
         lines = l1b.default_lines(fmt, n, start, first=rng.choice([1, 5, 100]))
         truth = []
         for i, line in enumerate(lines):
@@ -69,9 +73,12 @@ def run(res, tier, seed):
                 line["prt"] = [rng.randrange(65536) for _ in range(3)]
                 line["ict"] = [rng.randrange(65536) for _ in range(30)]
                 line["space"] = [rng.randrange(65536) for _ in range(50)]
+                if i % 3 == 1:  # drop-outs: some (not all) of the ten words of a channel read 0 / full scale
+                    for key in ("prt", "ict", "space"):
+                        line[key] = [rng.choice([0, 0, 1023, v % 1024]) for v in line[key]]
                 tw = None
             else:
-                tw = line_words(rng, 35, kinds[(i + 1) % len(kinds)] if i < 10 else "random")
+                tw = line_words(rng, 35, kinds[(i + 1) % len(kinds)] if i < 12 else rng.choice(["random", "dropouts"]))
                 line["tele_words"] = tw
                 line.pop("prt", None)
             truth.append((words, tw, kind))
